@@ -9,6 +9,8 @@ import Bmc.Driver.Rt
 import Bmc.Driver.Rt2
 import Bmc.Driver.Send
 import Bmc.Driver.SlSend
+import Bmc.Driver.Hs
+import Bmc.Driver.Suite
 open Bmc.Driver
 
 def decTables : List (String × DecFn) := decTableBasic ++ decTableCore ++ decTableSess ++ decTableDcmi ++ decTableSdr ++ decTableSetup
@@ -33,6 +35,8 @@ def step (line : String) : String :=
   | id :: _cls :: "rtrakp1" :: args => s!"{id} {evalRtRakp1 args}"
   | id :: _cls :: "send" :: args => s!"{id} {evalSend args}"
   | id :: _cls :: "slsend" :: args => s!"{id} {evalSlSend args}"
+  | id :: _cls :: "hs" :: args => s!"{id} {evalHs args}"
+  | id :: _cls :: "suite" :: args => s!"{id} {evalSuite args}"
   | id :: _ => s!"{id} bad-op"
   | [] => ""
 
